@@ -58,7 +58,7 @@ def race_run(ctx, seconds):
     except subprocess.TimeoutExpired:
         raise vlib.Infra("race run timed out")
     res = None
-    for line in reversed(p.stdout.strip().splitlines()):
+    for line in reversed(p.stdout.strip().split("\n")):
         if line.startswith("{"):
             import json
             res = json.loads(line)
@@ -93,8 +93,7 @@ def run(ctx):
     ctx.candidates = []
     ctx.validate_traces("Conc", base, nsh, CONSTS, "C19", head=HEAD, workers=1, parallel=16, timeout=3000)
     trace_cands = list(ctx.candidates)
-    oks = tracefam.batch_confirmer(ctx, "Conc", regen, CONSTS, HEAD)(trace_cands) if trace_cands else []
-    confirmed = [c for c, ok in zip(trace_cands, oks) if ok]
+    confirmed = ctx.keep_confirmed_batch(trace_cands, tracefam.batch_confirmer(ctx, "Conc", regen, CONSTS, HEAD))
     # free-running race stress
     rres, rcands = race_run(ctx, 6 if quick else 90)
     ctx.absorb(rres)
